@@ -10,8 +10,10 @@ import CBV.Lemmas.C07
 import CBV.Lemmas.C07Face
 import CBV.Lemmas.C07Vertex
 import CBV.Lemmas.C07Build
+import CBV.Lemmas.C10Geo
 import Mathlib.Tactic.Ring
 import Mathlib.Tactic.Linarith
+import Mathlib.Tactic.LinearCombination
 import Mathlib.Algebra.Order.Field.Rat
 import CBV.Gen.TC07
 
@@ -940,5 +942,55 @@ theorem T_C07_source_tests :
        ("EdgeList.add", ["try: v3 = self.find(v0, v1)",
           "except EdgeNotFoundError: v3 = factory.create(v0, v1, v2)",
           "if v3.is_valid: self.edges.append(v3)", "return v3"])] := by rfl
+
+/-! ### Round 6d: the `Angle` data of a `Revolve` describe the arcs between its corners -/
+
+/-- **`Revolve`'s side-edge data are consistent with its geometry.**  `Revolve.__init__` makes the top face by turning the base
+    (`CBV.C10.revolvePoints`, angle given by `(c, s)` on the unit circle, axis with length witness) and puts `Angle(angle, axis)`
+    on side edges 0..3, i.e. on slots 8..11, whose entries are written from corner `i` to corner `i + 4`
+    (`T_C07_direction_table`).  For every base face, angle, axis and origin and each `i`:
+    * slot `8 + i` runs from corner `i` to corner `i + 4`;
+    * the arc that datum describes — turn by the datum's angle about the datum's axis, centred at the foot of the first
+      vertex on the axis (an `Angle` datum has no origin of its own) — sends corner `i` to corner `i + 4`, in a plane
+      perpendicular to the axis (the first vertex's arm is perpendicular to it);
+    * the reversed datum (`Angle.reverse()`: angle negated, what `Operation.invert` / `Face.invert` hand on) sends corner
+      `i + 4` back to corner `i`, so the entry describes the same arc when it is written from the other end. -/
+theorem T_C07_revolve_angle (a b c' d : V3) (c s : Rat) (axis : V3) (len : Rat) (o : V3)
+    (h0 : len ≠ 0) (hl : len * len = V3.norm2 axis) (hcs : c * c + s * s = 1) :
+    let pts := CBV.C10.revolvePoints [a, b, c', d] c s axis len o
+    let u := V3.smul (1 / len) axis
+    ∀ i, i < 4 →
+      slotPair (8 + i) = (i, i + 4) ∧
+      (let p := pts.getD i V3.zero
+       let p' := pts.getD (i + 4) V3.zero
+       let centre := o + V3.smul (V3.dot u (p - o)) u
+       CBV.C10.rotU c s u centre p = p' ∧ V3.dot (p - centre) u = 0 ∧ CBV.C10.rotU c (-s) u centre p' = p) := by
+  intro pts u i hi
+  have hu : V3.norm2 u = 1 := CBV.C10.unit_axis axis len h0 hl
+  have key : ∀ p : V3,
+      CBV.C10.rotU c s u (o + V3.smul (V3.dot u (p - o)) u) p = CBV.C10.rotateP c s axis len o p ∧
+      V3.dot (p - (o + V3.smul (V3.dot u (p - o)) u)) u = 0 ∧
+      CBV.C10.rotU c (-s) u (o + V3.smul (V3.dot u (p - o)) u) (CBV.C10.rotateP c s axis len o p) = p := by
+    intro p
+    have h1 : CBV.C10.rotU c s u (o + V3.smul (V3.dot u (p - o)) u) p = CBV.C10.rotateP c s axis len o p := by
+      rw [CBV.C10.rotU_axis_point c s _ u o p hu, CBV.C10.rotateP_eq]
+    refine ⟨h1, ?_, ?_⟩
+    · have hu' := hu
+      simp only [V3.norm2, V3.dot] at hu'
+      simp only [V3.dot, V3.add_x, V3.add_y, V3.add_z, V3.sub_x, V3.sub_y, V3.sub_z, V3.smul_x, V3.smul_y, V3.smul_z]
+      linear_combination (-(u.x * (p.x - o.x) + u.y * (p.y - o.y) + u.z * (p.z - o.z))) * hu'
+    · rw [← h1]
+      exact CBV.C10.rotU_inverse c s u _ p hu hcs
+  have hi' : i = 0 ∨ i = 1 ∨ i = 2 ∨ i = 3 := by omega
+  rcases hi' with h | h | h | h <;> subst h
+  · exact ⟨rfl, key a⟩
+  · exact ⟨rfl, key b⟩
+  · exact ⟨rfl, key c'⟩
+  · exact ⟨rfl, key d⟩
+
+/-- non-vacuity: a quarter turn about (0, 0, 2) through (1, 0, 0): corner 0 = (2, 0, 0) goes to corner 4 = (1, 1, 0) -/
+example : (2 : Rat) ≠ 0 ∧ (2 : Rat) * 2 = V3.norm2 ⟨0, 0, 2⟩ ∧ ((0 : Rat) * 0 + 1 * 1 = 1) ∧
+    (CBV.C10.revolvePoints [⟨2, 0, 0⟩, ⟨3, 0, 0⟩, ⟨3, 0, 1⟩, ⟨2, 0, 1⟩] 0 1 ⟨0, 0, 2⟩ 2 ⟨1, 0, 0⟩).getD 4 V3.zero = ⟨1, 1, 0⟩ := by
+  decide +kernel
 
 end CBV.C07
